@@ -161,6 +161,8 @@ class World:
         N = self.nodes
         if "name" in fields:
             st["name"] = [x.name for x in N]
+        if "plink" in fields:        # the stored parent pointer as it is (0 = None): only compared before/after read-only calls
+            st["plink"] = [self.ident(x.parent) for x in N]
         if "kids" in fields:
             st["kids"] = [[self.ident(c) for c in x.children] for x in N]
         if "ns" in fields:
